@@ -19,7 +19,16 @@ white space as first / last characters, at token boundaries and in place of a bl
 theorems blank_like_characters_are_foreign / text_starting_with_untokenizable_rejected / text_ending_with_untokenizable_rejected).
 Termination (c10_term.go, child process): families of valid texts of growing size and their invalid twins (one error at the start / in the
 middle / at the end) through every entry point, every call under a time bound relative to the valid twin of the same size; a call that
-does not return is C10:parse-does-not-terminate, reported with the shortest stalling text."""
+does not return is C10:parse-does-not-terminate, reported with the shortest stalling text.
+Stream lit (c10_lit.go): literals that are tokens of the grammar and have no value (numbers beyond float64 / int64 in every spelling, over-long
+digit strings, days that do not exist, second 60, years of 1 / 3 / 5 / 30 digits) at EVERY literal position of every literal-taking construct
+(comparison operand, between bounds, element 1..n of in-lists of 1..4 elements, skip / limit of the query and of a sub-query, operands inside /
+behind sub-queries and and / or / not), the other positions holding convertible literals, plus the edge values that do convert: ast.Parse must
+answer with an error or a query, never panic (the error is latched in the middle of the tree walk).
+Stream boltnest (c10_nest.go): 36 symbol names that CLASH between the three bolt-backed stores (every ordered pair of the kinds scalar string /
+scalar int64 / fk / string set / fk set / map for every pair of stores) used - as scalar, dotted, in set functions, as sub-query source, in
+in-lists and sort clauses - BEHIND sub-queries nested to depth 1-3 over every order of the stores, in the outer scope and in every scope in
+between, on rows that reach them; parsed against the real store and evaluated through every Store query API."""
 import json
 import os
 import time
@@ -273,6 +282,30 @@ def main(argv):
     keep = [k for k, ca in enumerate(cases) if not ca.startswith("W ")]
     cases, impl, modl = [cases[k] for k in keep], [impl[k] for k in keep], [modl[k] for k in keep]
 
+    # stream boltnest: what the store says about a use T of a symbol on its own (stream nestuse carries every T alone)
+    nest_alone = {}
+    for ca, i in zip(cases, impl):
+        cf = ca.split()
+        if cf[1] == "nestuse" and cf[3] == "store":
+            nest_alone[runes(cf[2])] = i.split()[3]
+
+    def nest_hint(stream, text):
+        """for a filter of the stream boltnest: the use T behind the (nested) sub-query and the store's verdict on T alone"""
+        if stream != "boltnest":
+            return "", None
+        best = None
+        for t, v in nest_alone.items():
+            if t != text and t in text and (best is None or len(t) > len(best[0])):
+                best = (t, v)
+        if best is None:
+            return "", None
+        t, v = best
+        if v == "E":
+            return (" The filter uses %r behind a (nested) sub-query; on its own the same store REJECTS %r (ast.Parse returns an error): the symbol was "
+                    "checked against the symbol table of another scope, the ill-typed filter was accepted and its evaluation reads a symbol in a way its kind "
+                    "does not support" % (t, t)), dict(use=t, verdict_of_the_use_alone=v)
+        return " The filter uses %r behind a (nested) sub-query (on its own: %s)" % (t, v), dict(use=t, verdict_of_the_use_alone=v)
+
     distinct = set()
     disagreements = []
     evaluations = 0
@@ -316,12 +349,15 @@ def main(argv):
                 site, api, where = (v[2:].split("@") + ["-", "-"])[:3]
                 api, _, provider = api.partition(":")   # QueryWithCursorC:<cursor provider of the matrix of c10_cursors.go>
                 call = "%s(tx, %s, query)" % (api, provider) if provider else api
+                hint, hint_rep = nest_hint(stream, text)
                 c.violation("C10:panic-eval:" + site,
-                            "filter %r parses against the bolt-backed store and Store.%s panics in %s when it is evaluated over %s"
-                            % (text, call, site, STORE_DATASETS.get(where, where)),
-                            dict(rep, typing=ty, api=api, cursor_provider=provider or None, dataset=where, dataset_meaning=STORE_DATASETS.get(where, where), site=site,
+                            "filter %r parses against the bolt-backed store and Store.%s panics in %s when it is evaluated over %s.%s"
+                            % (text, call, site, STORE_DATASETS.get(where, where), hint),
+                            dict(rep, typing=ty, api=api, cursor_provider=provider or None, dataset=where, dataset_meaning=STORE_DATASETS.get(where, where), site=site, nested_scope=hint_rep,
                                  how_to_reproduce="define the stores of harness/cmd/storageharness/c10_store.go c10sBuild (main store `mains`: scalars s i f b a c d y name xs xi xf xb xd, "
-                                 "xp below the bucket path ext/deep, fk xk -> subs, sets ss is xss xis xfs xbs xds, fk sets xks -> subs and xms -> mains, map tags), write the entity profile named by "
+                                 "xp below the bucket path ext/deep, fk xk -> subs, sets ss is xss xis xfs xbs xds, fk sets xks -> subs and xms -> mains, map tags; subs: fk set xks -> leaves, owners -> mains; "
+                                 "leaves: owners -> mains; the names q<kM><kS><kL> of c10_nest.go c10nAddClashSymbols: kind s string, i int64, k fk, t string set, u fk set, m map in mains / subs / "
+                                 "leaves, fk and fk set to the next store of mains -> subs -> leaves -> mains), write the entity profile named by "
                                  "`dataset` (c10sWriteMain), then call Store.%s(tx, %r) inside db.View" % (api, text)))
                 flagged = True
             elif v.startswith("V:"):
@@ -422,6 +458,14 @@ def main(argv):
                      "and token-level mutations of those; typing `store`: parsed against the real store and evaluated through QueryIds / QueryIdsC / IterateIds(+Seek) / IterateValidIds / QueryWithCursorC "
                      "(row-id list with ids of missing entities, related-entity cursors) over a bolt file with the entity profiles full / NEVER WRITTEN / nil+empty / scalars only / sets only / dangling references / mistyped "
                      "and over the roots all / orphan (linked stores never created) / hollow (no entity) / void (no bucket); a panic is minimised to the single entity profile that is needed. "
+                     "lit = literal-taking constructs (comparison operands, between bounds, in-lists of 1..4 elements, skip / limit of the query and of sub-queries, operands inside and behind "
+                     "sub-queries, under and / or / not) x every literal position x NUMBER tokens beyond float64 / int64 (1e999, -1e400, 1e309, 310- / 401- / 1260-digit integers, exponents of 20 digits) and "
+                     "DATETIME tokens that are no instant (30 February, 29 February of common years, 31 April, second 60, years of 1 / 3 / 5 / 8 / 30 digits), the other positions convertible; all positions at "
+                     "once; edge values that convert (int64 min / max and neighbours, largest float64, denormals, -0, underflow, leap days, years 0000 / 9999, 40-digit fractions) at the first and last position; "
+                     "ten typings of x; boltlit = every third one with x renamed to int64 / float64 / datetime scalars and sets of the bolt-backed store. "
+                     "boltnest = 36 names that clash between the stores mains / subs / leaves (orthogonal array: every ordered pair of the kinds scalar string, scalar int64, fk, string set, fk set, map "
+                     "for every pair of stores) + symbols without clash, used (N = .., N.s = .., N.xss, N.i, in-list, anyOf / isEmpty, from N where, sort by) BEHIND a sub-query of depth 1, 2, 3 over every "
+                     "order of the stores - in the outer scope (P and T / P or T with P constant, so every row reaches T) and in the middle scopes behind the inner sub-query -, and on their own. "
                      "ins = 17 short valid sentences with one of 42 punctuation / control / blank-like / non-ASCII characters inserted at every position. "
                      "edge = 125 blank-like runes from Go's unicode tables (IsSpace, IsControl, Zs Zl Zp, White_Space, Pattern_White_Space, Bidi / Join controls, soft hyphen, ZWSP, BOM, U+FFFD, "
                      "non-characters, look-alikes of ASCII under case mapping / NFKC) + 11 byte sequences that are not UTF-8 + 12 mixtures with grammar white space: alone, as first / last characters "
